@@ -306,6 +306,7 @@ def mon_sig(sc, r):
 # ------------------------------------------------------------------------------------------------ stop (C12)
 
 STOP_MS = 700
+PHASES = ["run", "timeout", "grace", "delay", "stop-shutdown-cont", "info", "grace-shutdown", "grace-stop-second-shutdown"]
 RETRY_OVERRIDE = """
 [[profile.default.overrides]]
 filter = 'test(/^delay_/)'
@@ -316,7 +317,7 @@ retries = { backoff = "fixed", count = 1, delay = "1500ms" }
 def gen_stop(seed, k):
     rng = random.Random(seed * 9151 + k)
     sc = e2e.Scenario(f"stop{k}")
-    phase = ["run", "timeout", "grace", "delay", "stop-shutdown-cont", "info", "grace-shutdown"][k % 7] if k < 14 else rng.choice(["run", "timeout", "grace", "delay", "stop-shutdown-cont", "info", "grace-shutdown"])
+    phase = PHASES[k % len(PHASES)] if k < 2 * len(PHASES) else rng.choice(PHASES)
     tests = []; sigs = []; extra = ""
     P, K, G = 400, 3, 300
     def trig_started(t): return "TestStarted " + key_of(t["bin"], t["pkg"], t["name"])
@@ -358,6 +359,12 @@ def gen_stop(seed, k):
         t = {"bin": "t_one", "pkg": "alpha", "name": "ign_0", "kind": "shutdown_grace"}
         sc.test("t_one", "ign_0", ["ignore:18", "ignore:15", "hang"]); tests.append(t)
         sigs = [(trig_started(t), 1, 300, signal.SIGTERM), (trig_started(t), 1, 600, signal.SIGTSTP), (trig_started(t), 1, 600 + STOP_MS, signal.SIGCONT)]
+    elif phase == "grace-stop-second-shutdown":
+        # shutdown → grace period; stopped during it; a second shutdown signal and SIGCONT arrive together
+        G = 3000
+        t = {"bin": "t_one", "pkg": "alpha", "name": "ign_0", "kind": "second_shutdown"}
+        sc.test("t_one", "ign_0", ["ignore:18", "ignore:2", "hang"]); tests.append(t)
+        sigs = [(trig_started(t), 1, 300, signal.SIGINT), (trig_started(t), 1, 600, signal.SIGTSTP), (trig_started(t), 1, 900, signal.SIGINT), (trig_started(t), 1, 600 + STOP_MS, signal.SIGCONT)]
     else:  # info
         t = {"bin": "t_one", "pkg": "alpha", "name": "work_0", "kind": "work", "run_ms": 800}
         sc.test("t_one", "work_0", ["work:800", "exit:0"]); tests.append(t)
@@ -396,7 +403,7 @@ def mon_stop(sc, r):
         p = ps[0]; st = fin[0]; res, slowflag, taken = st[1], st[2] == "slow", int(st[3][:-2])
         sigs = [(s, ms(ns - p["start"])) for (ns, s) in p["sigs"]]
         alive_during_stop = t_stop is not None and p["start"] < t_stop and (not p.get("end") or p["end"][1] > t_stop)
-        if alive_during_stop and kind != "delay":
+        if alive_during_stop and kind not in ("delay", "second_shutdown"):
             gaps = [g for (_, g) in p.get("gaps", [])]
             if not gaps or max(gaps) < stopped_ms - 250: V("test-not-stopped", f"[{phase}] test {t['name']} was not stopped while nextest was (gaps in its own clock: {gaps}, nextest stopped {stopped_ms:.0f} ms)")
             if 18 not in [s for (s, _) in sigs]: V("test-not-continued", f"[{phase}] test {t['name']} never received SIGCONT (signals {sigs})")
@@ -431,6 +438,11 @@ def mon_stop(sc, r):
             want = t["delay"] + (stopped_ms if t_stop is not None else 0)
             if gap is not None and gap < want - SLACK_LO - 100: V("delay-short", f"[{phase}] retry started {gap:.0f} ms after the failed attempt; delay {t['delay']} ms + {stopped_ms:.0f} ms stopped = {want:.0f} ms")
             if gap is not None and gap > want + SLACK_HI: V("delay-long", f"[{phase}] retry started only {gap:.0f} ms after the failed attempt, expected about {want:.0f} ms: the retry-delay clock did not resume")
+        elif kind == "second_shutdown":
+            if r.exit != 100: V("exit", f"[{phase}] nextest exit status {r.exit}, expected 100")
+            fin = events_for(r, "TestFinished", key)
+            t_second = [ns for (ns, s) in sent if s == signal.SIGINT][1]
+            if fin and ms(fin[-1][0] - max(t_second, t_cont)) > SLACK_HI: V("late", f"[{phase}] the second shutdown signal did not kill the test at once (finished {ms(fin[-1][0] - max(t_second, t_cont)):.0f} ms after it could be handled)")
         elif kind in ("shutdown_ign", "shutdown_grace"):
             S = 2 if kind == "shutdown_ign" else 15
             if S not in [s for (s, _) in sigs]: V("signal", f"[{phase}] test never received the shutdown signal {S} (signals {sigs})")
